@@ -194,6 +194,23 @@ def ja3_point_format(code: int) -> bool:
     return _check(_hello(0x0303, [0x1301], extensions)) is True
 
 
+def ja3_after_history(code: int) -> bool:
+    """post: _"""
+    # one step of history with a symbolic integer: a hello carrying `code` in a one-byte list (psk modes) is parsed
+    # first, then hello B carries the same integer as a two-byte extension type and as a group
+    from cryptoparser.tls.subprotocol import TlsHandshakeClientHello  # pylint: disable=import-outside-toplevel
+    if not (P['LO'] <= code < P['HI'] and 0 <= code < 256):
+        return True
+    if any([code == item for item in P['PARSED']]):  # pylint: disable=use-a-generator
+        return True
+    try:
+        TlsHandshakeClientHello.parse_exact_size(_hello(0x0304, [0x1301], [(45, bytes([1, code]))]))
+    except PARSE_ERRORS:
+        pass
+    body = ref.u16(code) + ref.u16(0x001d)
+    return _check(_hello(0x0303, [0x1301], [(code, b''), (10, ref.u16(len(body)) + body), (0xff01, b'\x00')])) is True
+
+
 def ja3_known_extensions():
     """concrete: hellos built from the suite's own extension vectors (every extension type the library parses in
     detail), with and without supported_groups / ec_point_formats, in several orders"""
@@ -373,6 +390,11 @@ def shards(tier, seed):  # pylint: disable=unused-argument,too-many-locals
                              {'POS': pos, 'GROUPS': groups}, 600,
                              bounds='every point format code at position %d, supported_groups %s' % (
                                  pos, 'present' if groups else 'absent')))
+    for low, high in ((0, 16), (16, 32), (32, 48), (48, 64), (64, 128), (128, 192), (192, 256)):
+        out.append(Shard(MOD, 'ja3_after_history', 'after_history/%02x' % low,
+                         {'LO': low, 'HI': high, 'PARSED': sorted(parsed_types), 'AGAIN': False}, 600,
+                         bounds='integer %#04x..%#04x first parsed as a psk mode (one-byte list), then hello B with '
+                                'the same integer as extension type and group' % (low, high - 1)))
     out.append(Shard(MOD, 'ja3_history', 'history', {}, kind='concrete',
                      bounds='every integer 0..255 parsed first in a one-byte list and then as two-byte extension type, '
                             'group and suite (and the reverse order) in one process: JA3 equals the history-free '
